@@ -110,6 +110,34 @@ func init() {
 		st.log = append(st.log, "remove "+name)
 		return nilErr
 	})
+	statFn := func(in *Interp, caller *frame, pos token.Pos, fn *ssa.Function, args []Value) Value {
+		st := in.fs()
+		name := filepath.Clean(in.concreteStr(args[0], "file name"))
+		data, ok := st.files[name]
+		if !ok && !st.dirs[name] {
+			return Tuple{Iface{}, in.osErr("ErrNotExist")}
+		}
+		pkg := in.prog.ImportedPackage("os")
+		ft := pkg.Type("fileStat")
+		if ft == nil {
+			unsupported("os.fileStat not found")
+		}
+		fst := ft.Type().Underlying().(*types.Struct)
+		fz := in.zero(ft.Type()).(Struct)
+		for j := 0; j < fst.NumFields(); j++ {
+			switch fst.Field(j).Name() {
+			case "name":
+				fz[j] = Str{S: filepath.Base(name)}
+			case "size":
+				fz[j] = in.tb.BV(64, uint64(len(data)))
+			}
+		}
+		fc := new(Value)
+		*fc = fz
+		return Tuple{Iface{T: types.NewPointer(ft.Type()), V: Ptr{fc}}, nilErr}
+	}
+	reg("os.Stat", statFn)
+	reg("os.Lstat", statFn)
 	reg("os.RemoveAll", func(in *Interp, caller *frame, pos token.Pos, fn *ssa.Function, args []Value) Value {
 		st := in.fs()
 		name := filepath.Clean(in.concreteStr(args[0], "path"))
